@@ -128,6 +128,14 @@ type recTracer struct {
 	full   bool
 	hlogN  func() int
 	hfrom  int
+	onInit func() // called at TransitionInit of the full tracer (the previous transition is completely over)
+	// highest queue tick of a transition that has ended
+	doneTick uint64
+}
+
+type tickWaiter struct {
+	tick uint64
+	ch   <-chan struct{}
 }
 
 func (t *recTracer) idx(names am.S) []int {
@@ -155,6 +163,9 @@ func (t *recTracer) TransitionInit(tx *am.Transition) {
 	*t.events = append(*t.events, "init")
 	if t.full {
 		t.hfrom = t.hlogN()
+		if t.onInit != nil {
+			t.onInit()
+		}
 	}
 }
 func (t *recTracer) TransitionStart(tx *am.Transition) { *t.events = append(*t.events, "start") }
@@ -167,6 +178,9 @@ func (t *recTracer) TransitionEnd(tx *am.Transition) {
 	*t.events = append(*t.events, "end")
 	if !t.full {
 		return
+	}
+	if tx.Mutation.QueueTick > t.doneTick {
+		t.doneTick = tx.Mutation.QueueTick
 	}
 	rec := HTx{
 		Type:         int(tx.Mutation.Type),
@@ -359,6 +373,28 @@ func runHistory(in *HistInput) (obs *HistObs) {
 		return HAction{Ret: true}
 	}
 	activeIdx := func() []int { return idxOf(m.ActiveStates(nil)) }
+	// WhenQueue(tick) of every tick handed to a handler must be closed as soon as the
+	// transition of that tick is completely over, i.e. when the next transition is
+	// initialised or the machine goes idle (not only at the end of the history)
+	var waiters []tickWaiter
+	// a waiter for a tick far in the future, registered before all others: due
+	// waiters must be served although an earlier-registered one is not due yet
+	_ = m.WhenQueue(am.Result(m.QueueTick() + 1000000))
+	lateSeen := map[uint64]bool{}
+	checkWaiters := func() {
+		for _, w := range waiters {
+			if w.tick > tr.doneTick || lateSeen[w.tick] {
+				continue
+			}
+			select {
+			case <-w.ch:
+			default:
+				lateSeen[w.tick] = true
+				obs.OpenTicks = append(obs.OpenTicks, w.tick)
+			}
+		}
+	}
+	tr.onInit = checkWaiters
 	body := func(bi int, k HKey) bool {
 		a := nextAction()
 		e := HLog{Key: k, Binding: bi, Active: activeIdx(), Clock: m.Time(nil), Ret: a.Ret}
@@ -367,6 +403,10 @@ func runHistory(in *HistInput) (obs *HistObs) {
 		for _, c := range a.Calls {
 			r := doCall(m, names, c)
 			hlog[pos].Results = append(hlog[pos].Results, uint64(r))
+			if r >= 2 && c.Kind != "canadd" && c.Kind != "canremove" && c.Kind != "adderr" {
+				// a real queue tick: wait for it from now on
+				waiters = append(waiters, tickWaiter{tick: uint64(r), ch: m.WhenQueue(r)})
+			}
 		}
 		switch a.Fault {
 		case "panic":
@@ -464,6 +504,7 @@ func runHistory(in *HistInput) (obs *HistObs) {
 		}
 		obs.Calls = append(obs.Calls, HCallObs{Result: uint64(res), Time: m.Time(nil),
 			Active: activeIdx(), QTick: m.QueueTick(), NTx: len(obs.Txs), Err: errCode()})
+		checkWaiters()
 	}
 	// every queue tick handed to a handler must be resolved once the machine is idle
 	// (a check mutation or AddErr issued by a handler is prepended without a tick
@@ -478,7 +519,7 @@ func runHistory(in *HistInput) (obs *HistObs) {
 						tickless = true
 					}
 				}
-				if r >= 2 && !tickless {
+				if r >= 2 && !tickless && !lateSeen[r] {
 					select {
 					case <-m.WhenQueue(am.Result(r)):
 					default:
